@@ -19,6 +19,7 @@ SCENARIOS = {
     "S3": "compile on thread A, use on B, use and drop on C",
     "S4": "interleaved, partially consumed iterators on a shared object across two threads",
     "S5": "concurrent first calls on a freshly compiled shared object (empty-matching and ordinary pattern)",
+    "S6": "back-references, captures and case-blind matching on one shared object from three threads",
 }
 VIOLATION_MARKS = ["C18-MISMATCH", "Data race detected", "deadlock", "Undefined Behavior"]
 INFRA_MARKS = ["unsupported operation", "could not compile", "error: no such command", "is not installed"]
